@@ -400,4 +400,20 @@ def rule_borrowed_r4(ctx):
     ctx.borrow(rule_cm, {"C14.CM": "C19.CM"})
 
 
-RULES = [rule_funnel, rule_nodrop, rule_srv, rule_eof, rule_dot, rule_release, rule_noswallow, rule_borrowed_r4]
+def rule_defined(ctx):
+    from ..defined import undefined_uses
+    p = ctx.p
+    ctx.rule("C19.DEFINED", "no client-side function can read a local name that the path taken has not bound: hostile input must end in the documented errors, not in an UnboundLocalError")
+    n = 0
+    for q, fn in p.functions.items():
+        if p.module_of.get(fn) not in ("client.py", "common.py"):
+            continue
+        n += 1
+        bad = undefined_uses(p, fn)
+        ctx.ob("C19.DEFINED", bad[0][0] if bad else fn, f"{q}: every local is bound before it is read on every normal path", not bad,
+               f"{q}: `{bad[0][0].id if bad else ''}` can be read before it is bound (`{bad[0][1] if bad else ''}`)", construct=f"defined:{q}:{bad[0][0].id if bad else ''}", function=q)
+    if n < 90:
+        ctx.floor_errors.append(f"rule=C19.DEFINED: {n} functions of client.py/common.py analysed (floor 90)")
+
+
+RULES = [rule_funnel, rule_nodrop, rule_srv, rule_eof, rule_dot, rule_release, rule_noswallow, rule_borrowed_r4, rule_defined]
